@@ -20,7 +20,8 @@ from .. import common, ptydrv
 ALPHA = [' ', "'", '"', '$', '*', '?', '[', ']', '{', '}', ',', '~', '#', '|', '&', ';', '<', '>', '(', ')', '\\', '!', '`', '=', '%', '^', 'é']
 CTX = {'U': '', 'S': "'", 'D': '"', 'C': '', 'CS': "'", 'CD': '"'}
 # where the entry lives and how that is typed in front of the prefix: working directory, sub-directory, home (~), variable
-VARIANTS = ['plain', 'after-argument-ending-in-escaped-backslash', 'after-single-quoted-argument', 'after-double-quoted-argument', 'after-argument-with-escaped-blank', 'one-more-character-typed']
+VARIANTS = ['plain', 'after-argument-ending-in-escaped-backslash', 'after-single-quoted-argument', 'after-double-quoted-argument', 'after-argument-with-escaped-blank', 'one-more-character-typed',
+            'no-letter-prefix-first-character-typed']
 LOCS = [('cwd', ''), ('subdirectory', 'sd/'), ('home', '~/'), ('variable', '$VDIR/'), ('subdirectory-with-blank', 's d/')]
 
 
@@ -62,7 +63,7 @@ def _run_batch(job):
     out = []
     # what else is on the line (same variants as the in-process layer): an argument in front of the word, or one more
     # character of the name typed before TAB
-    before_typed, before_args = {0: ('', []), 1: ('x\\\\ ', ['x\\']), 2: ("'q' ", ['q']), 3: ('"d q" ', ['d q']), 4: ('a\\ b ', ['a b']), 5: ('', [])}[variant]
+    before_typed, before_args = {0: ('', []), 1: ('x\\\\ ', ['x\\']), 2: ("'q' ", ['q']), 3: ('"d q" ', ['d q']), 4: ('a\\ b ', ['a b']), 5: ('', []), 6: ('', [])}[variant]
     try:
         w = os.path.join(d, 'w')
         os.makedirs(w)
@@ -72,6 +73,8 @@ def _run_batch(job):
         os.makedirs(where, exist_ok=True)
         entries = []
         for pre, name in zip(prefixes(), names):
+            if variant == 6:
+                pre = ''          # the entry's name has no letter prefix (one entry per directory: batches of one name)
             full = pre + name
             if ctx in ('C', 'CS', 'CD'):
                 os.makedirs(os.path.join(where, full))
@@ -98,7 +101,7 @@ def _run_batch(job):
             nprompt = s.prompts()
             typed_loc = LOCS[loc][1].replace(' ', '\\ ') if ctx in ('U', 'C') else LOCS[loc][1]     # a blank is typed escaped outside quotes
             extra = ''
-            if variant == 5 and name:
+            if variant in (5, 6) and name:
                 c0 = name[0]
                 extra = c0 if (CTX[ctx] or c0.isalnum()) else '\\' + c0
             if ctx in ('C', 'CS', 'CD'):
@@ -217,6 +220,8 @@ def run(rep, tier):
         add('U', names1, 0, variant)
     for ctx in ('S', 'D'):
         add(ctx, [n for n in names1 if n not in ("'", '"', '$', '`', '\\', '!')], 0, 5)
+    for n in ('~', '$ ', '|x'.replace('x', '*'), '* ', "~'", '# ', '$~', '{,}'):
+        jobs.append(('U', [n], 0, 6))
     add('U', names2)
     hot = [n for n in names2 if any(c in n for c in '\'"\\$ `!')]
     if tier == 'thorough':
